@@ -117,6 +117,10 @@ func genC13(r *kernel.Rand, sc *kernel.Scenario, tier string, run int) {
 			}
 		case op == 1 && t != tProto:
 			f = kernel.St("len", "m", m, "t", t, "f", r.Intn(400), "v", r.Intn(7), "be", r.Bool(0.15))
+			if r.Bool(0.3) {
+				// supply zero bytes for the elements a larger count announces
+				f.A["pad"], f.A["padat"] = int64([]int{1100, 2200, 5000, 40000}[r.Intn(4)]), int64(r.Intn(2))
+			}
 		case op == 1 || op == 7:
 			if !env {
 				continue
@@ -543,7 +547,17 @@ func expand(f *kernel.Step, vals []*value) (v *value, cases []faultCase) {
 		be := f.Int("be") != 0
 		d := append([]byte(nil), b.data...)
 		putInt(d[fl.off:fl.off+fl.width], val, be)
-		add(t, d, "%d-byte field at offset %d (was %x) overwritten with %d (big-endian=%v)", fl.width, fl.off, b.data[fl.off:fl.off+fl.width], val, be)
+		padNote := ""
+		if pad := modLen(f.Int("pad"), 1<<16); pad > 0 && t != tProto {
+			at := len(d)
+			padNote = fmt.Sprintf(", %d zero bytes appended", pad)
+			if f.Int("padat") != 0 {
+				at = fl.off + fl.width
+				padNote = fmt.Sprintf(", %d zero bytes inserted after it", pad)
+			}
+			d = append(d[:at:at], append(make([]byte, pad), d[at:]...)...)
+		}
+		add(t, d, "%d-byte field at offset %d (was %x) overwritten with %d (big-endian=%v)%s", fl.width, fl.off, b.data[fl.off:fl.off+fl.width], val, be, padNote)
 		if name, ok := dimFields[v.kind.name][fl.off]; ok && fl.width == 2 && binary.LittleEndian.Uint16(d[fl.off:]) > 1024 {
 			cases[len(cases)-1].declared = name
 		}
